@@ -333,9 +333,16 @@ func or(ps ...func(ssa.Instruction) bool) func(ssa.Instruction) bool {
 // fieldEqConst decomposes cond as `load(pkg.typ.field) == const` and returns
 // the constant's string value.
 func fieldEqConst(cond ssa.Value, pkg, typ, field string) (string, bool) {
-	bo, ok := cond.(*ssa.BinOp)
-	if !ok || bo.Op != token.EQL {
-		return "", false
+	s, neq, ok := fieldCmpConst(cond, pkg, typ, field)
+	return s, ok && !neq
+}
+
+// fieldCmpConst recognises `x.field == "const"` and `x.field != "const"`
+// (either operand order); neq tells which.
+func fieldCmpConst(cond ssa.Value, pkg, typ, field string) (s string, neq bool, ok bool) {
+	bo, isB := cond.(*ssa.BinOp)
+	if !isB || (bo.Op != token.EQL && bo.Op != token.NEQ) {
+		return "", false, false
 	}
 	try := func(a, b ssa.Value) (string, bool) {
 		if _, ok := fieldLoad(a, pkg, typ, field); !ok {
@@ -343,10 +350,46 @@ func fieldEqConst(cond ssa.Value, pkg, typ, field string) (string, bool) {
 		}
 		return an.StrConst(b)
 	}
-	if s, ok := try(bo.X, bo.Y); ok {
-		return s, true
+	if v, ok := try(bo.X, bo.Y); ok {
+		return v, bo.Op == token.NEQ, true
 	}
-	return try(bo.Y, bo.X)
+	v, ok2 := try(bo.Y, bo.X)
+	return v, bo.Op == token.NEQ, ok2
+}
+
+// eqAtom recognises a comparison of a known atom with its constant: match,
+// and whether the condition is written as the negation (!=).
+type eqAtom func(v ssa.Value) (match, negated bool)
+
+// hasEqFact: block b is control-dependent on the atom's equality being `polarity`.
+func hasEqFact(b *ssa.BasicBlock, polarity bool, a eqAtom) bool {
+	for _, f := range an.BranchFacts(b) {
+		cond, neg := an.Not(f.Cond)
+		match, negated := a(cond)
+		if !match {
+			continue
+		}
+		if (f.True != neg) != negated == polarity {
+			return true
+		}
+	}
+	return false
+}
+
+// ifsOnEq lists the Ifs on the atom; Neg tells whether the If's condition is the negation of the equality.
+func ifsOnEq(fn *ssa.Function, a eqAtom) []condIf {
+	var out []condIf
+	an.Instrs(fn, func(in ssa.Instruction) {
+		iff, ok := in.(*ssa.If)
+		if !ok {
+			return
+		}
+		cond, neg := an.Not(iff.Cond)
+		if match, negated := a(cond); match {
+			out = append(out, condIf{iff, neg != negated})
+		}
+	})
+	return out
 }
 
 // hasFact reports whether the block is control-dependent (through
